@@ -121,6 +121,13 @@ def extract(shadow):
         # R-CONDREF: symex aborts (address_arithmetic invariant) on a conditional expression of reference type whose arm is a call
         # with class-type arguments; the one such return statement is written as if/return (same evaluation order, same result)
         Rule('R-CONDREF', r'return \(str == nullptr\) \? \*this : (replace\( first, last, str, std::strlen\( str\)\));', r'if (str == nullptr) return *this; return \1;', 1),
+        # Sub-object bounds (instrumentation, no change of behaviour): CBMC's pointer and bounds checks are object-granular -- an
+        # access that leaves mString[ L + 1] but stays inside the FixedString object (i.e. hits mLength) is no obligation of
+        # its own.  Every element access gets an index obligation, every address computation a one-past obligation, and the
+        # mem* calls go through forwarding functions that check the byte range against the buffer of the registered objects.
+        Rule('R-IDX', r'(?<![&\w.])mString\[ (?!L \+ 1\])([^\]]*)\]', r'mString[ cv_idx( \1, L + 1)]', (30, 60)),
+        Rule('R-ADR', r'&mString\[ ([^\]]*)\]', r'&mString[ cv_adr( \1, L + 1)]', (25, 50)),
+        Rule('R-MEMSUB', r'(?:std)?::(memcpy|memmove|memset|memcmp)\(', r'::cv_\1(', (30, 50)),
         Rule('R-ACCESS', r'^private:', 'public:', 1),
         Rule('R-THROW', r'throw std::out_of_range\([^;]*\);', 'CV_THROW( 1);', 2, flags=re.M | re.S),
         # T-INST: the two-parameter free operator templates cannot be instantiated by the front end;
@@ -284,6 +291,20 @@ OBSERVERS = []   # filled in by fs_obs.py (C11 observers)
 # --------------------------------------------------------------------------------------------
 # text generation
 
+SUBOBJ = [
+    '// sub-object bounds (R-IDX / R-ADR / R-MEMSUB): obligations CBMC does not generate itself (its checks are object-granular)',
+    'extern "C" { const void* cv_reg_obj[3]; size_t cv_reg_cap[3]; }   /* the FixedString objects of this call and their capacities */',
+    'inline size_t cv_idx( size_t i, size_t n) { __CPROVER_assert(i < n, "sub-object bound: index inside mString[ L + 1]"); return i; }',
+    'inline size_t cv_adr( size_t i, size_t n) { __CPROVER_assert(i <= n, "sub-object bound: address inside or one past mString[ L + 1]"); return i; }',
+    'inline void cv_sub( const void* p, size_t n) { for (int k = 0; k < 3; ++k) if (cv_reg_obj[k] != 0 && __CPROVER_same_object(p, cv_reg_obj[k]))',
+    '  __CPROVER_assert(__CPROVER_POINTER_OFFSET(p) + n <= cv_reg_cap[k] + 1, "sub-object bound: mem* byte range stays inside mString[ L + 1]"); }',
+    'inline void* cv_memcpy( void* d, const void* s, size_t n) { cv_sub( d, n); cv_sub( s, n); return ::memcpy( d, s, n); }',
+    'inline void* cv_memmove( void* d, const void* s, size_t n) { cv_sub( d, n); cv_sub( s, n); return ::memmove( d, s, n); }',
+    'inline void* cv_memset( void* d, int c, size_t n) { cv_sub( d, n); return ::memset( d, c, n); }',
+    'inline int cv_memcmp( const void* a, const void* b, size_t n) { cv_sub( a, n); cv_sub( b, n); return ::memcmp( a, b, n); }',
+]
+
+
 def wrappers_text(L, methods, S2=None):
     S2 = S2 or L
     o = ['// generated: extern "C" wrappers and state accessors for FixedString<%d> (compiled with the shadow header)' % L,
@@ -292,6 +313,7 @@ def wrappers_text(L, methods, S2=None):
          '#define CV_THROW(k) { cv_thrown = (k); return mString[ 0]; }',
          '#define CV_THROW_IT(k) { cv_thrown = (k); __CPROVER_assume(0); }   /* a throw in an iterator ends the call */',
          '#define CV_L %d' % L, '#define CV_S %d   /* capacity of the other operand of the cross-capacity members (T-INST-S) */' % S2,
+         ] + SUBOBJ + [
          '#include <stdexcept>', '#include <iterator>', '#include <limits>', '#include "celma/common/pre_postfix.hpp"',
          '#include "%s"' % HDR,
          'typedef celma::common::FixedString< CV_S> FS2;',
@@ -308,7 +330,8 @@ def wrappers_text(L, methods, S2=None):
          'int w_api_empty(const void* self) { return static_cast<const FS*>(self)->empty(); }',
          'char w_api_cstr_at(const void* self, size_t i) { return static_cast<const FS*>(self)->c_str()[i]; }']
     for m in methods:
-        params, pre = ['void* self'], []
+        params, pre = ['void* self'], ['cv_reg_obj[0] = self; cv_reg_cap[0] = CV_L; cv_reg_obj[1] = 0; cv_reg_obj[2] = 0;',
+                                       '__CPROVER_assert(__CPROVER_POINTER_OFFSET(&static_cast<FS*>(self)->mString[0]) == __CPROVER_POINTER_OFFSET(self), "layout witness: mString is at offset 0");']
         for kind, name in m.args:
             if kind == 'z':
                 params.append('size_t ' + name)
@@ -323,10 +346,10 @@ def wrappers_text(L, methods, S2=None):
                 pre.append('std::string %s( %s_p, %s_n);' % (name, name, name))
             elif kind == 'F':
                 params.append('void* %s_p' % name)
-                pre.append('FS& %s = *static_cast<FS*>(%s_p);' % (name, name))
+                pre.append('FS& %s = *static_cast<FS*>(%s_p); cv_reg_obj[1] = %s_p; cv_reg_cap[1] = CV_L;' % (name, name, name))
             elif kind == 'G':
                 params.append('void* %s_p' % name)
-                pre.append('FS2& %s = *static_cast<FS2*>(%s_p);' % (name, name))
+                pre.append('FS2& %s = *static_cast<FS2*>(%s_p); cv_reg_obj[2] = %s_p; cv_reg_cap[2] = CV_S;' % (name, name, name))
         call = 'static_cast<FS*>(self)->' + m.call
         if m.raw:
             if m.ret == 'str':
@@ -372,7 +395,7 @@ def prelude_c(L, K, objsz_macro=True, light=False, S2=None):
          '#define L %dul' % L, '#define K %dul' % K,
          'size_t w_sizeof(void); size_t w_length(const void*); char w_char_at(const void*, size_t);',
          'size_t w_api_length(const void*); int w_api_empty(const void*); char w_api_cstr_at(const void*, size_t);',
-         'int cv_thrown;',
+         'int cv_thrown; extern const void* cv_reg_obj[3]; extern size_t cv_reg_cap[3];',
          '/* representation invariant (C10): length <= capacity and NUL at the length */',
          '/* the last buffer byte is only ever written as terminator: part of the invariant (established by the member',
          '   initialiser, preserved by every method -- checked as postcondition) so that pre-states are reachable ones */',
@@ -500,7 +523,7 @@ def contract_text(m, L, K, c11, extra_req=(), light=False, S2=None):
         assigns.append('__CPROVER_object_whole(out)')
     if m.ret == 'cT':
         assigns += ['*thrown', 'cv_thrown']
-    assigns.append('cv_thrown')   # the R-THROW flag
+    assigns += ['cv_thrown', '__CPROVER_object_whole(cv_reg_obj)', '__CPROVER_object_whole(cv_reg_cap)']   # the R-THROW flag, the sub-object registry (ghost)
     o.append('__CPROVER_assigns(%s)' % '; '.join(dict.fromkeys(assigns)))
     o.append('__CPROVER_ensures(WF(self))')
     if m.ret == 'r':
@@ -623,7 +646,7 @@ class Unit:
         src = self.scratch.write('gen/sz_%d.cpp' % L,
                                  '#include <cstdint>\n#include <cstring>\n#include <string>\nextern "C" int cv_thrown;\n'
                                  '#define CV_THROW(k) { cv_thrown = (k); return mString[ 0]; }\n#define CV_THROW_IT(k) { cv_thrown = (k); __CPROVER_assume(0); }\n'
-                                 '#define CV_L %d\n#define CV_S CV_L\n#include <stdexcept>\n#include <iterator>\n#include <limits>\n#include "celma/common/pre_postfix.hpp"\n' % L +
+                                 '#define CV_L %d\n#define CV_S CV_L\n' % L + '\n'.join(SUBOBJ) + '\n#include <stdexcept>\n#include <iterator>\n#include <limits>\n#include "celma/common/pre_postfix.hpp"\n' +
                                  '#include "%s"\nint cv_thrown;\nint main() { __CPROVER_assert(sizeof(CV_FS) == CV_SZ, "sz"); }\n' % HDR)
         st = size_type(L)
         lo = L + 1 + {'uint8_t': 1, 'uint16_t': 2, 'uint32_t': 4}[st]
@@ -741,7 +764,10 @@ def evidence_info(unit, tier):
                          'stand-in <string> (malloc-backed, never freed, allocation assumed to succeed, temporaries longer than CV_STR_CAP not explored), <cstring>, <cstdint>, <stdexcept>',
                          'MiniSat (built into cbmc)', 'g++ witness: CV_SIZE_TYPE equals LengthType<L>::type',
                          'layout witness: sizeof(FixedString<L>) in CBMC\'s C++ layout asserted in every harness'],
-        'assumptions': ['per-instance proof: capacities ' + ('3, 5' if c11 else '1, 2, 3, 8') + ' (quick); 255/256 and 65535/65536 length-type boundaries not reached',
+        'assumptions': ['per-instance proof: capacities ' + ('3, 5 (quick) / 2, 3, 5, 8 (thorough); cross-capacity members with second capacity L-1, L, L+1' if c11 else
+                                                           '1, 2, 3, 8 (quick), + 16 (thorough); cross-capacity members with second capacity L-1, L, L+1; the 255/256 length-type boundary '
+                                                           '(uint8_t -> uint16_t length field) with light contracts (invariant + memory safety, no content ghosts) for the members that finish '
+                                                           'there: 17 in the quick tier, 33 in the thorough tier, the others time out; 65535/65536 not reached') + '; cross-capacity instances only where both capacities share the length type',
                         'source C-strings / std::string arguments of length <= L+3 (bounded); (str,count) buffers of <= L+3 bytes',
                         'throw in at() modelled by R-THROW (flag + return)', 'termination not proved',
                         'the overloads taking std::string::iterator or std::initializer_list, the cross-capacity (template<size_t S>) overloads, sprintf, the defaulted/move special members and stream output are not under contract; the overloads taking FixedString iterators (insert/erase/replace/append), FixedString(const char*) and FixedString(const std::string&) are, and so are the iterator classes themselves (textual instantiation T := char, F := FixedString<L>)'],
